@@ -140,6 +140,50 @@ var scenarios = []scenario{
 			r.RunToEnd(g2)
 			r.Drain(nil)
 		}},
+	{name: "relayed-then-announced", cfg: schedrv.Config{NPub: 1, ChainLen: 4, Filter: true},
+		what: "a peer the allow filter rejects announces the publisher's head first, then the publisher announces the same head",
+		run: func(r *schedrv.Run) {
+			pubN(r, 0, 2)
+			r.Do(schedrv.Decision{K: "relay", P: 0, C: 2})
+			g := announce(r, 0, 2)
+			if g >= 0 {
+				r.RunToEnd(g)
+			}
+			r.Drain(nil)
+		}},
+	{name: "policy-flip-then-reannounce", cfg: schedrv.Config{NPub: 2, ChainLen: 4, Filter: true},
+		what: "a head is announced while the policy rejects its publisher, the policy changes, the head is announced again",
+		run: func(r *schedrv.Run) {
+			pubN(r, 0, 1)
+			pubN(r, 1, 1)
+			r.Do(schedrv.Decision{K: "deny", P: 0})
+			r.Do(schedrv.Decision{K: "rej", P: 0, C: 1})
+			g1 := announce(r, 1, 1)
+			r.Do(schedrv.Decision{K: "allow", P: 0})
+			g0 := announce(r, 0, 1)
+			if g0 >= 0 {
+				r.RunToEnd(g0)
+			}
+			if g1 >= 0 {
+				r.RunToEnd(g1)
+			}
+			r.Drain(nil)
+		}},
+	{name: "rejected-burst-during-sync", cfg: schedrv.Config{NPub: 1, ChainLen: 5, Filter: true},
+		what: "while a sync is inside handler.handle rejected announcements of newer heads arrive, then the publisher announces the newest",
+		run: func(r *schedrv.Run) {
+			pubN(r, 0, 1)
+			g := announce(r, 0, 1)
+			r.RunUntil(g, schedrv.YHandleLocked)
+			pubN(r, 0, 1)
+			r.Do(schedrv.Decision{K: "relay", P: 0, C: 2})
+			pubN(r, 0, 1)
+			r.Do(schedrv.Decision{K: "deny", P: 0})
+			r.Do(schedrv.Decision{K: "rej", P: 0, C: 3})
+			r.Do(schedrv.Decision{K: "allow", P: 0})
+			announce(r, 0, 3)
+			r.Drain(nil)
+		}},
 	{name: "burst-coalesced", cfg: schedrv.Config{NPub: 1, ChainLen: 6},
 		what: "three announcements arrive while a sync is inside handler.handle: one goroutine waits, the middle announcements are replaced",
 		run: func(r *schedrv.Run) {
@@ -203,6 +247,7 @@ var scenarios = []scenario{
 
 type genCfg struct {
 	anns, exps, rms int
+	rejs, flips     int
 	failPct         int
 }
 
@@ -210,6 +255,7 @@ type genCfg struct {
 func randomRun(rng *vlib.Rand, cfg schedrv.Config, g genCfg) *schedrv.Run {
 	r := schedrv.NewRun(cfg)
 	lastAnn := make([]int, cfg.NPub)
+	denied := make([]bool, cfg.NPub)
 	// every publisher starts with one advertisement
 	for p := 0; p < cfg.NPub; p++ {
 		r.Do(schedrv.Decision{K: "pub", P: p})
@@ -236,7 +282,25 @@ func randomRun(rng *vlib.Rand, cfg schedrv.Config, g genCfg) *schedrv.Run {
 				if r.M.Pubhead[p] < cfg.ChainLen {
 					opts = append(opts, opt{schedrv.Decision{K: "pub", P: p}, 6})
 				}
-				if r.CanAnnounce() && lastAnn[p] < r.M.Pubhead[p] {
+				if cfg.Filter {
+					if denied[p] {
+						opts = append(opts, opt{schedrv.Decision{K: "allow", P: p}, 6})
+						if g.rejs > 0 {
+							opts = append(opts, opt{schedrv.Decision{K: "rej", P: p, C: 1 + rng.Intn(r.M.Pubhead[p])}, 6})
+						}
+					} else if g.flips > 0 {
+						opts = append(opts, opt{schedrv.Decision{K: "deny", P: p}, 2})
+					}
+					if g.rejs > 0 {
+						// mostly the head that is about to be announced
+						c := r.M.Pubhead[p]
+						if rng.Intn(3) == 0 {
+							c = 1 + rng.Intn(r.M.Pubhead[p])
+						}
+						opts = append(opts, opt{schedrv.Decision{K: "relay", P: p, C: c}, 5})
+					}
+				}
+				if r.CanAnnounce() && lastAnn[p] < r.M.Pubhead[p] && !denied[p] {
 					c := r.M.Pubhead[p]
 					if c-lastAnn[p] > 1 && rng.Intn(4) == 0 {
 						c = lastAnn[p] + 1 + rng.Intn(c-lastAnn[p]-1)
@@ -272,6 +336,13 @@ func randomRun(rng *vlib.Rand, cfg schedrv.Config, g genCfg) *schedrv.Run {
 			k -= o.w
 		}
 		switch d.K {
+		case "rej", "relay":
+			g.rejs--
+		case "deny":
+			g.flips--
+			denied[d.P] = true
+		case "allow":
+			denied[d.P] = false
 		case "ann":
 			g.anns--
 			lastAnn[d.P] = d.C
@@ -330,6 +401,14 @@ func report(c *vlib.Ctx, name string, r *schedrv.Run, what string) {
 	}
 	if len(r.Removed) > 0 {
 		c.Count("kind:handler-removed")
+	}
+	if r.Cfg.Filter {
+		c.Count("kind:allow-filter")
+		for _, d := range r.Decisions {
+			if d.K == "rej" || d.K == "relay" {
+				c.Count("rejected-announcements")
+			}
+		}
 	}
 	nerr, nrepl := 0, 0
 	for _, e := range r.M.Events {
@@ -436,8 +515,11 @@ func main() {
 		if cp < 0 {
 			cp = 0
 		}
-		cfg := schedrv.Config{NPub: npub, Cap: cp, ChainLen: 6, V: v}
+		cfg := schedrv.Config{NPub: npub, Cap: cp, ChainLen: 6, V: v, Filter: rng.Intn(4) == 0}
 		g := genCfg{anns: 2 + rng.Intn(3*npub+2), failPct: 15}
+		if cfg.Filter {
+			g.rejs, g.flips = 2+rng.Intn(5), 1+rng.Intn(3)
+		}
 		switch rng.Intn(4) {
 		case 0: // announce-only
 		case 1:
